@@ -294,6 +294,8 @@ struct Case {
     consumed: Vec<usize>,
     index: usize,
     guards_held: usize,
+    stepping_clients: Vec<usize>,
+    worker_at_point: bool,
 }
 
 impl Case {
@@ -325,11 +327,24 @@ impl Case {
         }
         let consumed = vec![0; cfg.clients];
         let _ = ctl.take_oracle();
-        Case { name: name.to_string(), cfg, ctl, cache, clock, clients, acks: Vec::new(), consumed, index: 0, guards_held: 0 }
+        Case { name: name.to_string(), cfg, ctl, cache, clock, clients, acks: Vec::new(), consumed, index: 0, guards_held: 0, stepping_clients: Vec::new(), worker_at_point: false }
     }
 
     fn collect_client(&mut self, tid: usize) -> J {
         // the client is Idle (finished), blocked, or still running (timeout)
+        // a client in point-stepping mode may stop at a schedule point inside its call
+        if self.stepping_clients.contains(&tid) {
+            let deadline = std::time::Instant::now() + STEP_TIMEOUT;
+            while std::time::Instant::now() < deadline {
+                if let Some(label) = self.ctl.at_point(Role::Client(tid)) {
+                    return J::A(vec![J::I(7), J::S(label.to_string())]);
+                }
+                if self.ctl.client_state(tid) != ClientState::Running { break; }
+                thread::sleep(Duration::from_micros(50));
+            }
+            self.ctl.set_stepping(Role::Client(tid), false);
+            self.stepping_clients.retain(|t| *t != tid);
+        }
         // while some client keeps a reference guard a call may legitimately block on that shard: do not wait long
         let state = self.ctl.wait_client(tid, if self.guards_held > 0 { Duration::from_millis(250) } else { STEP_TIMEOUT });
         match state {
@@ -358,6 +373,29 @@ impl Case {
             ClientState::BlockedAtSend(which) => J::A(vec![J::I(3), J::I(which as i128)]),
             ClientState::Running => J::A(vec![J::I(8)]),
             ClientState::AtPoint(_) => J::A(vec![J::I(7)]),
+        }
+    }
+
+    /// waits until the worker is back at its gate (command finished) or stopped at a point of interest; points inside
+    /// the acknowledgement are stepped through
+    fn wait_worker_point(&mut self) -> J {
+        let deadline = std::time::Instant::now() + STEP_TIMEOUT;
+        loop {
+            if let Some(label) = self.ctl.at_point(Role::Worker) {
+                if label.starts_with("ack.") { self.ctl.step_point(Role::Worker); thread::sleep(Duration::from_micros(20)); continue; }
+                self.worker_at_point = true;
+                return J::A(vec![J::I(7), J::S(label.to_string())]);
+            }
+            match self.ctl.role_state(Role::Worker) {
+                RoleState::AtGate | RoleState::Dead(_) | RoleState::Exited | RoleState::Draining => {
+                    self.worker_at_point = false;
+                    self.ctl.set_stepping(Role::Worker, false);
+                    return J::A(vec![]);
+                }
+                _ => {}
+            }
+            if std::time::Instant::now() >= deadline { return J::A(vec![J::I(8)]); }
+            thread::sleep(Duration::from_micros(50));
         }
     }
 
@@ -413,6 +451,45 @@ impl Case {
                         }
                     }
                 }
+            }
+            "callp" => {
+                // a call in point-stepping mode: it stops at the schedule points inside the call
+                let tid: usize = parts[1].parse().unwrap();
+                if self.ctl.client_state(tid) != ClientState::Idle {
+                    skipped = true;
+                } else {
+                    self.ctl.set_stepping(Role::Client(tid), true);
+                    self.stepping_clients.push(tid);
+                    self.ctl.set_client_state(tid, ClientState::Running);
+                    self.clients[tid].tx.send(Some(Job::Call(build_job(&parts[2..])))).unwrap();
+                    ret = self.collect_client(tid);
+                }
+            }
+            "workerp" => {
+                // one worker command in point-stepping mode: stops at the points inside the command (not inside done())
+                let state = self.ctl.role_state(Role::Worker);
+                if state != RoleState::AtGate || self.cache.verif_snapshot().queue_len == 0 || self.worker_at_point { skipped = true; }
+                else {
+                    self.ctl.set_stepping(Role::Worker, true);
+                    self.ctl.grant(Role::Worker);
+                    ret = self.wait_worker_point();
+                }
+            }
+            "runw" => {
+                if !self.worker_at_point { skipped = true; } else {
+                    self.ctl.step_point(Role::Worker);
+                    ret = self.wait_worker_point();
+                }
+            }
+            "run" if self.stepping_clients.contains(&parts[1].parse::<usize>().unwrap()) => {
+                let tid: usize = parts[1].parse().unwrap();
+                if self.ctl.at_point(Role::Client(tid)).is_some() {
+                    self.ctl.step_point(Role::Client(tid));
+                    // give the thread a moment to leave the point before we look again
+                    let deadline = std::time::Instant::now() + Duration::from_millis(200);
+                    while self.ctl.at_point(Role::Client(tid)).is_some() && std::time::Instant::now() < deadline { thread::sleep(Duration::from_micros(20)); }
+                    ret = self.collect_client(tid);
+                } else { skipped = true; }
             }
             "run" => {
                 let tid: usize = parts[1].parse().unwrap();
